@@ -21,6 +21,7 @@ mod utils;
 #[cfg(eigerco_lumina_verif)]
 pub mod verif {
     pub use crate::block_ranges::verif_hooks as block_ranges;
+    pub use crate::p2p::header_ex_verif_hooks as header_ex;
     pub use crate::pruner::verif_hooks as pruner;
     pub use crate::syncer::verif_hooks as syncer;
     pub use crate::daser::verif_hooks as daser;
